@@ -1,7 +1,7 @@
 """Per-property checks.  Every function returns an Outcome dict:
    level, coverage (EVIDENCE schema keys), mismatches (real-code disagreements that are
    violations of *this* property), assumptions."""
-import json, os, re, sys, time, concurrent.futures as cf
+import json, os, re, shutil, sys, time, concurrent.futures as cf
 import vlib
 from vlib import ToolFailure, run_tlc, run_harness, write_rows
 
@@ -979,6 +979,29 @@ def c12(prop, tier, seed):
         os.unlink(f)
     mism = tagged(res["mismatches"], prop)
     races = race_reports(err)
+    # code -> spec: recorded concurrent executions must be linearizable w.r.t. CacheLin (TLC decides per trace)
+    import lintrace
+    ldir = os.path.join(vlib.OUT, "%d-lin" % os.getpid())
+    shutil.rmtree(ldir, ignore_errors=True)
+    lin_extra, lin_n, lin_ev, lin_states = {}, 0, 0, 0
+    try:
+        for k, (ncl, ntr, nev) in enumerate(((3, 10, 600), (2, 4, 600), (4, 4, 500)) if tier == "quick" else ((3, 150, 1000), (2, 60, 1000), (4, 60, 800))):
+            sub = os.path.join(ldir, str(k))
+            lres, lerr = run_harness("lin", ["-seed", seed * 10 + k, "-traces", ntr, "-events", nev, "-clients", ncl, "-out", sub], race=True, timeout=3000,
+                                     env_extra={"GORACE": "exitcode=0 history_size=3"})
+            races += race_reports(lerr)
+            for kk, vv in lres.get("extra", {}).items():
+                lin_extra[kk] = lin_extra.get(kk, 0) + vv
+            n, ne, st, mm = lintrace.validate_dir(sub, par=12)
+            lin_n, lin_ev, lin_states = lin_n + n, lin_ev + ne, lin_states + st
+            tool_errors(mm)
+            mism += mm
+            if mm:
+                break
+    finally:
+        shutil.rmtree(ldir, ignore_errors=True)
+    if lin_n == 0 or not lin_extra.get("caches_without_watcher"):
+        raise ToolFailure("vacuous: no linearizability trace recorded, or no cache without watcher in any of them")
     seen = set()
     for r in races:
         # one violation per distinct pair of source locations
@@ -992,15 +1015,22 @@ def c12(prop, tier, seed):
            "traces_validated_against_impl": res["evaluations"], "evaluations": extra.get("operations", res["evaluations"]),
            "distinct_nontrivial": len(rows), "client_programs": len(rows), "stress_rounds": extra.get("rounds"),
            "critical_sections_counted": extra.get("critical_sections_counted"), "race_reports": len(races),
+           "lin_traces_validated": lin_n, "lin_events": lin_ev, "lin_trace_states": lin_states, "lin_caches_without_watcher": lin_extra.get("caches_without_watcher"),
            "rule": "model: TLC explores every interleaving of 2 clients running every program of 2 operations (quick: the 7 operations that differ "
                    "in lock discipline; thorough: all 13, and 3 clients x single operations), the watcher goroutine and an atomic switcher; "
                    "NoRace/MutualExclusion/SnapshotOK and absence of deadlock. code: the same client programs, replicated over all cores, run "
                    "under the race detector against one auto-refresh cache while a switcher renames two contents (two devices each) into place; "
                    "every ListDevices/GetDevice/InjectDevices/GetVendorSpecs result must be one content completely; a counter incremented from "
                    "the hook inside every critical section races if a lock is dropped; no operation completing for 30 s is a stall. "
+                   "code -> spec (linearizability): 2-4 goroutines call Refresh and the query API on a manual cache, an auto-refresh cache whose "
+                   "watcher could not be created (every call rescans) and an auto-refresh cache with a watcher while a switcher renames contents "
+                   "of increasing version into place; calls, returns (with the version the result shows) and renames are logged in one total order and "
+                   "TLC validates every log against spec/CacheLin.tla: some placement of one critical section per call, of the renames' effects and of "
+                   "the watcher's rescans must explain every returned version (a manual query answers from the index exactly, a completed Refresh "
+                   "shows in every later query, versions never go back, no result mixes versions). "
                    "distinct_nontrivial = distinct client program pairs executed",
            "samples": rows[:2], "exhaustive": False,
-           "checker_cmd": "tlc MCCacheConc ; harness-race stress"}
+           "checker_cmd": "tlc MCCacheConc ; harness-race stress ; harness-race lin + tlc CacheLin per trace"}
     return {"level": "model_checking", "coverage": cov, "mismatches": mism, "replay_with": "",
             "assumptions": ["interleavings are exhaustive in the model only; on the code the race detector is sound for the executions it sees",
                             "the lock-discipline table of spec/CacheConc.tla is a transcription of cache.go (read/write sets per operation)"]}
